@@ -38,11 +38,12 @@ func (c *HeartbeatManager) IsHeartbeatRunning() bool {
 	c.stopMux.Lock()
 	defer c.stopMux.Unlock()
 
-	if c.stopHeartbeatC != nil && !c.isHeartbeatClosed() {
-		return true
-	}
+	return c.isHeartbeatRunning()
+}
 
-	return false
+// must be invoked with stopMux locked
+func (c *HeartbeatManager) isHeartbeatRunning() bool {
+	return c.stopHeartbeatC != nil && !c.isHeartbeatClosed()
 }
 
 func (c *HeartbeatManager) SetLocalFeature(entity api.EntityLocalInterface, feature api.FeatureLocalInterface) {
@@ -88,8 +89,13 @@ func (c *HeartbeatManager) StartHeartbeat() error {
 		return err
 	}
 
+	// stopping, replacing the stop channel and starting the new heartbeat has to be one step,
+	// otherwise concurrent invocations can run two heartbeats with one of them being unstoppable
+	c.stopMux.Lock()
+	defer c.stopMux.Unlock()
+
 	// stop an already running heartbeat
-	c.StopHeartbeat()
+	c.stopHeartbeat()
 	verifYield("StartHeartbeat.stopped")
 
 	c.stopHeartbeatC = make(chan struct{})
@@ -102,7 +108,16 @@ func (c *HeartbeatManager) StartHeartbeat() error {
 // Stop updating heartbeat data
 // Note: No active subscribers will get any further notifications!
 func (c *HeartbeatManager) StopHeartbeat() {
-	if c.IsHeartbeatRunning() {
+	c.stopMux.Lock()
+	defer c.stopMux.Unlock()
+
+	c.stopHeartbeat()
+}
+
+// must be invoked with stopMux locked, so the check and the close are one step
+// and concurrent invocations can not close the channel twice
+func (c *HeartbeatManager) stopHeartbeat() {
+	if c.isHeartbeatRunning() {
 		verifYield("StopHeartbeat.checked")
 		close(c.stopHeartbeatC)
 	}
